@@ -51,14 +51,15 @@ def search(harness, seed=0, timeout=120):
     return out
 
 
-def replay(harness, inputs, profiles=("debug", "release")):
-    """Run the harness body natively on concrete inputs.  -> list of dict(profile, rc, output)."""
+def replay(harness, inputs, profiles=("debug", "release"), env=None):
+    """Run the harness body natively on concrete inputs.  -> list of dict(profile, rc, output).
+    `env`: extra environment (the per-property marker filter, so that the replay names the assertion the search reported)."""
     res = []
     for profile in profiles:
         ok, path, log = build_replay(profile)
         if not ok:
             res.append(dict(profile=profile, rc=2, output="replay build failed: " + log))
             continue
-        p = subprocess.run([path, "run", harness] + [str(x) for x in inputs], capture_output=True, text=True, env=ENV)
+        p = subprocess.run([path, "run", harness] + [str(x) for x in inputs], capture_output=True, text=True, env=dict(ENV, **(env or {})))
         res.append(dict(profile=profile, rc=p.returncode, output=(p.stdout + p.stderr)[:1500]))
     return res
